@@ -4,7 +4,8 @@ from .c07 import inv_from_e1
 
 LEVEL = "proof"
 EXPLANATION = ("(cast) every narrowing integer cast of the crate is an obligation: the operand is proved to fit the target "
-               "type on the path reaching the cast; (vtbe) at every ValueTooBigError construction the path condition "
+               "type on the path reaching the cast (or, when decided later, before the next write / non-error return); "
+               "(shl) no left shift of an unsigned value pushes set bits out of its type unless the result is masked at once; (vtbe) at every ValueTooBigError construction the path condition "
                "entails actual > max_allowed and the value type matches the IP version of the path; (accept) on the "
                "sibling Ok paths of each comparison guard the accepted value is <= max_allowed; (unchanged) on every Err "
                "return of a `&mut self` setter *self equals its entry value.")
@@ -22,6 +23,7 @@ def check(ctx):
         e1_health(ctx, res, e1)
         tag = "" if cfg == "std" else "@" + cfg
         e1_site_findings(ctx, res, "e1-cast" + tag, e1, lambda fn, kind, desc, s: kind == "cast")
+        e1_site_findings(ctx, res, "e1-shl" + tag, e1, lambda fn, kind, desc, s: kind == "shl")
         out = rules_val.run(F, inv_from_e1(e1))
         rejecting = {r["fn"] for r in out}
         # arithmetic of a range-checking function must not wrap: an overflow after the guard means the guard accepts a
